@@ -99,6 +99,9 @@ func (sel *Selection) findSlice(segs []*Path) (*Selection, error) {
 					return nil, err
 				}
 			}
+		} else {
+			// a choice or a case: named in the schema, but not a node of the data tree
+			return nil, fmt.Errorf("%w. %s is not a data node and cannot be selected", fc.BadRequestError, segs[i].Meta.Ident())
 		}
 	}
 	return p, nil
